@@ -109,11 +109,14 @@ def evaluate(sid, sdir, props, tier):
 
 
 def ingest(src, props_override, tier):
-    prop = os.path.basename(src.rstrip("/")).split("-")[-1]
+    base = os.path.basename(src.rstrip("/"))
+    prop = base.split("-")[-1]
+    mo = re.match(r"seed(\d+)-", base)
+    rnd = ("r%s" % mo.group(1)) if mo else ""
     out = []
     for diff in sorted(glob.glob(os.path.join(src, "SEED_*.diff"))):
         var = os.path.basename(diff)[5:-5]
-        sid = "%s_%s" % (prop, var)
+        sid = "%s_%s%s" % (prop, rnd, var)
         sdir = os.path.join(SEEDED, sid)
         os.makedirs(sdir, exist_ok=True)
         shutil.copy(diff, os.path.join(sdir, "patch.diff"))
